@@ -763,7 +763,7 @@ class Sum(Binary):
         try:
             self.right.value -= index(value)
         except TypeError:
-            return super().__add__(value)
+            return super().__sub__(value)
 
 
 class AndExpression(Binary):
